@@ -85,8 +85,13 @@ fn fault_site(world: &World, ei: usize, marks: &[Mark]) -> String {
 }
 
 pub fn execute(scn: &WfScn, ctx: &mut Ctx) {
-    if scn.w.calls.iter().any(|c| matches!(c, WCall::Other(_))) || matches!(scn.w.ending, Ending::WriteShapes(_)) {
+    if matches!(scn.w.ending, Ending::WriteShapes(_)) {
         ctx.fail("HARNESS", "invalid-scenario", "family", "WFAULT workloads are made of write_shape, finalize and drop only".to_string());
+        return;
+    }
+    if scn.w.calls.iter().any(|c| matches!(c, WCall::Other(_))) {
+        // workloads of the wfault-c02 phase with rejected writes in between: judged there only
+        execute_c02(scn, ctx);
         return;
     }
     let Some(g) = golden(&scn.w) else {
@@ -456,6 +461,9 @@ pub fn execute_c02(scn: &WfScn, ctx: &mut Ctx) {
             _ => {
                 if m.call == "finalize" {
                     failed_finalize = true;
+                } else if m.call.starts_with("write-other") && matches!(m.res, CallRes::Err(RErr::Mismatch { .. })) {
+                    // a shape of another type offered in between: rejected, as it must be
+                    ctx.stats.reach("c02-history-with-rejected-write");
                 } else {
                     ctx.stats.reach("c02-fault-hit-a-write");
                     return;
@@ -497,6 +505,8 @@ pub fn execute_c02(scn: &WfScn, ctx: &mut Ctx) {
         if wb.data(SHP) != &g.shp[..] || (scn.w.with_shx && wb.data(SHX) != &g.shx[..]) {
             let at = wb.data(SHP).iter().zip(g.shp.iter()).position(|(a, b)| a != b);
             ctx.fail("C09", "same-as-drop", "after-failed-finalize", format!("history {} with a finalize that failed once: the files left by the drop differ from write-all-then-drop (.shp {} vs {} bytes, first difference at {:?})", pattern(&scn.w), wb.data(SHP).len(), g.shp.len(), at));
+            // C12: once the destination works again, the files are completed exactly as an undisturbed run would
+            ctx.fail("C12", "golden-after-failed-finalize", if scn.w.calls.iter().any(|c| matches!(c, WCall::Other(_))) { "with-rejected-write" } else { "plain" }, format!("history {} with a finalize that failed once: the files left by the drop differ from those of the undisturbed run (.shp {} vs {} bytes, first difference at {:?})", pattern(&scn.w), wb.data(SHP).len(), g.shp.len(), at));
         }
     }
 }
@@ -544,10 +554,30 @@ pub fn unit_c02(seed: u64, ctx: &mut Ctx, ctl: &mut UnitCtl) {
             }
         }
     }
-    let w = WProg { shapes, others: vec![], calls, ending: if r.chance(1, 2) { Ending::Drop } else { Ending::FinDrop }, with_shx: r.chance(2, 3), stack: StackCfg::Direct };
+    // in a third of the workloads a shape of another type is offered (and rejected) right after
+    // each finalize call: a call that must not change anything, whatever the finalize left behind
+    let mut others = vec![];
+    if r.chance(1, 3) {
+        let oty = *r.pick(&TYPES);
+        if oty != ty {
+            others.push(gen_spec(&mut r, oty, &k));
+            let mut c2 = Vec::new();
+            let mut seen_write = false;
+            for c in calls {
+                let fin = matches!(c, WCall::Fin | WCall::FinRetry);
+                seen_write |= matches!(c, WCall::W(_));
+                c2.push(c);
+                if fin && seen_write {
+                    c2.push(WCall::Other(0));
+                }
+            }
+            calls = c2;
+        }
+    }
+    let w = WProg { shapes, others, calls, ending: if r.chance(1, 2) { Ending::Drop } else { Ending::FinDrop }, with_shx: r.chance(2, 3), stack: StackCfg::Direct };
     let world = World::new(Plan::default());
     let run = run_writer(&world, &w);
-    if run.build_panic.is_some() || run.marks.iter().any(|m| !m.res.is_ok()) {
+    if run.build_panic.is_some() || run.marks.iter().any(|m| !m.res.is_ok() && !m.call.starts_with("write-other")) {
         ctx.fail("HARNESS", "invalid-scenario", "workload", "generated workload does not run cleanly".to_string());
         ctl.after_case(ctx, || Scenario::WFault(WfScn { w: w.clone(), plan: Plan::default() }));
         return;
